@@ -243,6 +243,9 @@ class SeriesOps:
             named = {k: v for k, v in kw.items() if isinstance(v, PyTuple) and len(v.items) == 2 and isinstance(v.items[0], str)}
             if spec is None and named and len(named) == len(kw):
                 return mk({out: T.agg(str(v.items[1]) if isinstance(v.items[1], str) else T.show(to_term(v.items[1])), f.col(v.items[0]), ctx, keyterms) for out, v in named.items()})
+            # SeriesGroupBy named aggregation: gb["col"].agg(out="fn", ...)
+            if spec is None and isinstance(sel, str) and kw and all(isinstance(v, str) for v in kw.values()):
+                return mk({out: T.agg(fn, f.col(sel), ctx, keyterms) for out, fn in kw.items()})
             if isinstance(spec, dict):
                 cols = {}
                 for c, fn in spec.items():
